@@ -96,6 +96,24 @@ def run_one(args):
     return res
 
 
+def gen_walk(rng):
+    r = rng.random()
+    if r < 0.55:
+        return [rng.randrange(10 ** 6) for _ in range(rng.choice([1, 2, 3, 4, 6]))]
+    # scripted walks ("pattern|n": the n-th candidate whose description contains the pattern, else candidate n):
+    # a service trip is taken off a vehicle (it goes to a dummy tour), its place is possibly refilled by hitch-hiking,
+    # then nodes are exchanged out of dummy tours into real vehicles - the moves that ADD a vehicle to a formation
+    n = lambda: rng.randrange(10 ** 4)
+    w = []
+    for _ in range(rng.choice([1, 1, 2])):
+        w.append("RemoveSingleNode_trip|%d" % n())
+        if rng.random() < 0.6:
+            w.append("AddTripForHitchHiking|%d" % n())
+    for _ in range(rng.choice([1, 2, 3])):
+        w.append(rng.choice(["from_dummy|%d", "from_dummy|%d", "PathExchange|%d", "%d"]) % n())
+    return [int(x) if x.isdigit() else x for x in w]
+
+
 def failures(pid, inst, r):
     bad = []
     if r["status"] != "OK":
@@ -133,23 +151,7 @@ def main(tier, seed):
                                                                          {"slots": "some", "type_limits": "all"},
                                                                          {"slots": "some", "seg_limits": "all", "ntypes": 2}]))
                                     for _ in range(n)]
-    def gen_walk():
-        r = rng.random()
-        if r < 0.55:
-            return [rng.randrange(10 ** 6) for _ in range(rng.choice([1, 2, 3, 4, 6]))]
-        # scripted walks ("pattern|n": the n-th candidate whose description contains the pattern, else candidate n):
-        # a service trip is taken off a vehicle (it goes to a dummy tour), its place is possibly refilled by hitch-hiking,
-        # then nodes are exchanged out of dummy tours into real vehicles - the moves that ADD a vehicle to a formation
-        n = lambda: rng.randrange(10 ** 4)
-        w = []
-        for _ in range(rng.choice([1, 1, 2])):
-            w.append("RemoveSingleNode_trip|%d" % n())
-            if rng.random() < 0.6:
-                w.append("AddTripForHitchHiking|%d" % n())
-        for _ in range(rng.choice([1, 2, 3])):
-            w.append(rng.choice(["from_dummy|%d", "from_dummy|%d", "PathExchange|%d", "%d"]) % n())
-        return [int(x) if x.isdigit() else x for x in w]
-    cases = [(d, k, inst, gen_walk()) for k, inst in enumerate(insts)]
+    cases = [(d, k, inst, gen_walk(rng)) for k, inst in enumerate(insts)]
     # corpus cases with a prescribed walk (candidate descriptions or indices)
     if not os.environ.get("VERIF_REPLAY"):
         cases += [(d, 9000 + k, c["instance"], c["walk"]) for k, c in enumerate(lib.load_corpus_cases(PID + "_walks"))]
